@@ -11,7 +11,9 @@
     * hence whenever the model yields a list (`spanTickDists p fuel = some ds`), the list is **strictly** increasing in
       IEEE `<`: `tick_dist = d₁ < d₂ < … < len − min_dist`, `d_{i+1} = d_i + tick_dist`;
     * `tick_loop_diverges_float`/`stream_diverges_float`: `SliderEventsIter::new(0, 1000, 1, 5e-324, 1e9, 1)` is accepted
-      (`len = 100000` by the clamp, the clamp `[0, len]` keeps the tick distance) and its tick loop never terminates.
+      (`len = 100000` by the clamp, the clamp `[0, len]` keeps the tick distance) and its tick loop never terminates;
+    * `tick_loop_terminates_float`: thanks to the clamp `len ≤ 100000 < 2¹⁷`, a tick distance `≥ 2⁻³⁶` is never absorbed
+      and the loop terminates — non-termination needs `tick_dist < 2⁻³⁶ ≈ 1.46e-11`.
   Part 2 (`ticks_chronological_float`). Division by a positive number, multiplication by a non-negative number, addition
   of a fixed number and `1 − ·` are monotone *after rounding* (Lemmas/FloatRoundMono.lean, Lemmas/FloatArithMono.lean), so
   the tick times `span_start + (d / len) · span_duration` (forward) and `span_start + (1 − d / len) · span_duration`
@@ -25,6 +27,7 @@
 import RosuModel.Props.C20Ieee
 import RosuModel.Props.C16Ieee
 import RosuModel.Lemmas.FloatTickLaws
+import RosuModel.Lemmas.FloatModelOrder
 namespace Rosu.C20
 open Rosu Rosu.SliderEvents
 
@@ -590,5 +593,184 @@ theorem stream_diverges_float (fuel N : Nat) :
   exact tick_loop_diverges_float fuel
 
 end Diverge
+
+/-! ## termination when the tick distance is not tiny: what the clamp `len ≤ 100000` buys
+
+Every loop value that reaches the body satisfies `0 < d ≤ len ≤ 100000 < 2¹⁷`, so its ulp is at most `2⁻³⁶`. A tick
+distance `≥ 2⁻³⁶` is therefore never absorbed (`no_absorption_after_new_float`), each turn moves `d` to a strictly
+larger double, and the loop terminates (`tick_loop_terminates_float`). Without the clamp (`len` up to `1.8e308`) every
+tick distance can be absorbed; with it, non-termination (`tick_loop_diverges_float`) is confined to tick distances below
+`2⁻³⁶ ≈ 1.46e-11` — which `new` does not exclude (it clamps to `[0, len]` only), and which encode.rs reaches with a
+large `slider_tick_rate` (`tick_dist = scoring_dist / slider_tick_rate · …`). -/
+
+section Terminate
+open Float.Model Float.Model.UnpackedFloat
+
+/-- `2⁻³⁶`, the ulp of the doubles in `[65536, 131072)`. -/
+def ulp17 : Float := Float.ofBits 0x3DB0000000000000
+
+theorem ulp17_unpack : ulp17.toModel.unpack = .finite .positive (2 ^ 52) (-88) (by decide) := by
+  unfold ulp17
+  rw [FM.float_unpack_ofBits _ (by decide)]
+  rfl
+
+theorem two17_unpack : (131072 : Float).toModel.unpack = .finite .positive (2 ^ 52) (-35) (by decide) := by
+  have : (131072 : Float) = Float.ofBits 0x4100000000000000 := by decide +kernel
+  rw [this, FM.float_unpack_ofBits _ (by decide)]
+  rfl
+
+theorem ult_fin_pos_iff {m m' : Nat} {e e' : Int} (h h') :
+    (UnpackedFloat.finite .positive m e h).lt (.finite .positive m' e' h') = true ↔ (e < e' ∨ (e = e' ∧ m < m')) := by
+  rw [FMO.ult_iff]
+  simp only [UnpackedFloat.isNaN, FMO.key, FMO.KLt, true_and]
+  omega
+
+/-- a positive double below `2¹⁷`, unpacked: its exponent is at most `−36` (its ulp at most `2⁻³⁶`). -/
+theorem small_pos_unpack (d : Float) (hd : Scalar.lt (0 : Float) d = true) (hd2 : Scalar.lt d (131072 : Float) = true) :
+    ∃ m e h, d.toModel.unpack = .finite .positive m e h ∧ FMR.CanonFin Format.binary64 m e ∧ e ≤ -36 := by
+  rw [FMO.lt_float] at hd hd2
+  rw [FAM.float_zero_unpack] at hd
+  rw [two17_unpack] at hd2
+  have hc := FAM.float_canon d
+  rcases FAM.pos_cases _ hd with ⟨m, e, h, he⟩ | he
+  · rw [he] at hd2 hc
+    refine ⟨m, e, h, he, hc, ?_⟩
+    have := (ult_fin_pos_iff h (by decide)).mp hd2
+    have hc' : FMR.CanonFin Format.binary64 m e := hc
+    rcases hc'.norm with hn | hn
+    · have : (2 : Nat) ^ (Format.binary64.mantissaBits - 1) = 2 ^ 52 := rfl
+      omega
+    · have : Format.binary64.minExponent = -1074 := by decide
+      omega
+  · rw [he] at hd2; cases hd2
+
+/-- adding `2⁻³⁶` to a positive double below `2¹⁷` strictly increases it (it is at least one ulp). -/
+theorem lt_add_ulp17 (d : Float) (hd : Scalar.lt (0 : Float) d = true) (hd2 : Scalar.lt d (131072 : Float) = true) :
+    Scalar.lt d (d + ulp17) = true := by
+  obtain ⟨m, e, hm, hun, hc, he⟩ := small_pos_unpack d hd hd2
+  rw [FMO.lt_float, FAM.float_add_unpack, hun, ulp17_unpack, FMR.add_fin]
+  generalize hmn : min e (-88 : Int) = mn
+  obtain ⟨j, hj⟩ : ∃ j : Nat, (e - mn).toNat = j := ⟨_, rfl⟩
+  obtain ⟨i, hi⟩ : ∃ i : Nat, ((-88 : Int) - mn).toNat = i := ⟨_, rfl⟩
+  rw [hj, hi]
+  have hsum : Sign.positive.apply ((m * 2 ^ j : Nat) : Int) + Sign.positive.apply ((2 ^ 52 * 2 ^ i : Nat) : Int) =
+      ((m * 2 ^ j + 2 ^ 52 * 2 ^ i : Nat) : Int) := by simp [Sign.apply]
+  have hpj := Nat.two_pow_pos j
+  rw [hsum, FMR.normalize_pos _ _ _ _ (by have := Nat.mul_pos hm hpj; omega), Int.toNat_natCast]
+  -- the successor of `d` is a canonical number not above the exact sum
+  have hstep : 2 ^ j ≤ 2 ^ 52 * 2 ^ i := by
+    rw [← Nat.pow_add]; exact Nat.pow_le_pow_right (by omega) (by omega)
+  have hMB : (2 : Nat) ^ Format.binary64.mantissaBits = 2 ^ 53 := rfl
+  have hMB1 : (2 : Nat) ^ (Format.binary64.mantissaBits - 1) = 2 ^ 52 := rfl
+  have hmin : Format.binary64.minExponent = -1074 := by decide
+  have hlt := hc.lt
+  have hge := hc.ge
+  have key : ∃ ma ea, FMR.CanonFin Format.binary64 ma ea ∧ 0 < ma ∧ (e < ea ∨ (e = ea ∧ m < ma)) ∧
+      ∃ j' : Nat, ea = mn + j' ∧ ma * 2 ^ j' ≤ m * 2 ^ j + 2 ^ 52 * 2 ^ i := by
+    by_cases hcarry : m + 1 < 2 ^ 53
+    · refine ⟨m + 1, e, ⟨by rw [hMB]; exact hcarry, hge, ?_⟩, by omega, Or.inr ⟨rfl, by omega⟩, j, by omega, ?_⟩
+      · rcases hc.norm with hn | hn
+        · left; omega
+        · exact Or.inr hn
+      · rw [Nat.add_mul, Nat.one_mul]; omega
+    · refine ⟨2 ^ 52, e + 1, ⟨by rw [hMB]; decide, by omega, Or.inl (by rw [hMB1]; exact Nat.le_refl _)⟩, by decide,
+        Or.inl (by omega), j + 1, by omega, ?_⟩
+      have : m + 1 = 2 ^ 53 := by omega
+      have h2 : 2 ^ 52 * 2 ^ (j + 1) = (m + 1) * 2 ^ j := by
+        rw [this, ← Nat.pow_add, ← Nat.pow_add]; congr 1; omega
+      rw [h2, Nat.add_mul, Nat.one_mul]; omega
+  obtain ⟨ma, ea, hca, hma, hlex, j', hj', hle⟩ := key
+  obtain ⟨mr, er, ⟨pr, hfin⟩, hcr, hl⟩ := FMR.round_ge Format.binary64 .positive _ mn ma ea hca hma j' hj' hle
+  rw [hfin]
+  have hlt' : (UnpackedFloat.finite .positive m e hm).lt (.finite .positive mr er pr) = true := by
+    rw [ult_fin_pos_iff]
+    rcases hl with hl | ⟨hl, hl'⟩ <;> rcases hlex with hx | ⟨hx, hx'⟩ <;> omega
+  rcases FAM.repack_cases Format.binary64 (by decide) (.finite .positive mr er pr) hcr with ⟨h1, _⟩ | ⟨s, _, _, _, hs, _, h1⟩
+  · rw [h1]; exact hlt'
+  · rw [h1]
+    cases hs
+    rfl
+
+/-- **no absorption for `tick_dist ≥ 2⁻³⁶` below `2¹⁷`**: the step of the tick loop is strict. -/
+theorem tick_step_strict_float (t d : Float) (ht : Scalar.le ulp17 t = true) (hd : Scalar.lt (0 : Float) d = true)
+    (hd2 : Scalar.lt d (131072 : Float) = true) : Scalar.lt d (d + t) = true := by
+  have h0d := FMO.le_of_lt _ _ hd
+  have h0u : Scalar.le (0 : Float) ulp17 = true := by decide +kernel
+  have h0t := FMO.le_trans _ _ _ h0u ht
+  have n1 := C16.nonneg_not_nan_float _ (C16.add_nonneg_float d ulp17 h0d h0u)
+  have n2 := C16.nonneg_not_nan_float _ (C16.add_nonneg_float d t h0d h0t)
+  exact FMO.lt_of_lt_of_le _ _ _ (lt_add_ulp17 d hd hd2) (FAM.add_le_add_left_float d ulp17 t ht n1 n2)
+
+/-- **what the clamp `len ≤ 100000` buys**: after `SliderEventsIter::new`, a tick distance `≥ 2⁻³⁶ ≈ 1.46e-11` is never
+absorbed — every loop value `0 < d ≤ len` is strictly increased. (Absorption needs `tick_dist ≤ ulp(d)/2 ≤ 2⁻³⁷`.) -/
+theorem no_absorption_after_new_float {start dur vel td total : Float} {n : Int} {p : Params Float}
+    (hnew : Params.new start dur vel td total n = some p) (ht : Scalar.le ulp17 p.tickDist = true)
+    (d : Float) (hd : Scalar.lt (0 : Float) d = true) (h1 : Scalar.le d p.len = true) :
+    Scalar.lt d (d + p.tickDist) = true := by
+  obtain ⟨_, hlen, _, _⟩ := new_clamps_float hnew
+  exact tick_step_strict_float _ d ht hd
+    (FMO.lt_of_le_of_lt _ _ _ (FMO.le_trans _ _ _ h1 hlen) (by decide +kernel))
+
+theorem fval_lt_of_lt {x y : Float} (h : Scalar.lt x y = true) : FM.fval x < FM.fval y :=
+  (FM.float_lt_iff x y (FMO.not_nan_of_lt h).1 (FMO.not_nan_of_lt h).2).mp (of_decide_eq_true h)
+
+theorem fval_le_of_le {x y : Float} (h : Scalar.le x y = true) : FM.fval x ≤ FM.fval y :=
+  (FM.float_le_iff x y (FMO.not_nan_of_le h).1 (FMO.not_nan_of_le h).2).mp (of_decide_eq_true h)
+
+/-- the loop from a positive `d` terminates within `fval(100000) + 2 − fval(d)` turns (`fval` = the bit pattern of a
+positive double read as an integer): each turn moves `d` to a strictly larger double. -/
+theorem tickDists_terminates_float {start dur vel td total : Float} {n : Int} {p : Params Float}
+    (hnew : Params.new start dur vel td total n = some p) (ht : Scalar.le ulp17 p.tickDist = true) :
+    ∀ (k : Nat) (d : Float), Scalar.lt (0 : Float) d = true →
+      FM.fval (100000 : Float) + 1 - FM.fval d ≤ (k : Int) → ∃ ds, tickDists p (k + 1) d = some ds := by
+  obtain ⟨_, hlen, _, _⟩ := new_clamps_float hnew
+  intro k
+  induction k with
+  | zero =>
+    intro d hd hk
+    rw [tickDists]
+    split
+    · rename_i hle
+      have := fval_le_of_le (FMO.le_trans _ _ _ hle hlen)
+      omega
+    · exact ⟨[], rfl⟩
+  | succ k ih =>
+    intro d hd hk
+    rw [tickDists]
+    split
+    · rename_i hle
+      split
+      · exact ⟨[], rfl⟩
+      · have hlt := no_absorption_after_new_float hnew ht d hd hle
+        have hv := fval_lt_of_lt hlt
+        obtain ⟨ds, hds⟩ := ih (d + p.tickDist) (FMO.lt_trans _ _ _ hd hlt) (by omega)
+        exact ⟨d :: ds, by rw [hds]; rfl⟩
+    · exact ⟨[], rfl⟩
+
+/-- **termination for `tick_dist ≥ 2⁻³⁶`**: for every input accepted by `SliderEventsIter::new` whose (clamped) tick
+distance is at least `2⁻³⁶`, some fuel suffices for the tick loop — the Rust loop terminates (the bound, the number of
+doubles between `tick_dist` and `100000`, is astronomically generous; in exact arithmetic `len / tick_dist` turns suffice). -/
+theorem tick_loop_terminates_float {start dur vel td total : Float} {n : Int} {p : Params Float}
+    (hnew : Params.new start dur vel td total n = some p) (ht : Scalar.le ulp17 p.tickDist = true) :
+    ∃ fuel ds, spanTickDists p fuel = some ds := by
+  have h0 : Scalar.lt (0 : Float) p.tickDist = true :=
+    FMO.lt_of_lt_of_le _ _ _ (by decide +kernel : Scalar.lt (0 : Float) ulp17 = true) ht
+  obtain ⟨ds, hds⟩ := tickDists_terminates_float hnew ht
+    (FM.fval (100000 : Float) + 1 - FM.fval p.tickDist).toNat p.tickDist h0 (by omega)
+  refine ⟨(FM.fval (100000 : Float) + 1 - FM.fval p.tickDist).toNat + 1, ds, ?_⟩
+  unfold spanTickDists
+  rw [if_pos (show Scalar.gt p.tickDist (0 : Float) = true from h0)]
+  exact hds
+
+/-- hypotheses of `tick_loop_terminates_float` on the unit test: `300 ≥ 2⁻³⁶`. -/
+example : Params.new (0 : Float) 1000 1 300 1000 2 = some exF ∧ Scalar.le ulp17 exF.tickDist = true := by decide +kernel
+/-- `ulp17` is `2⁻³⁶`: `ulp17 · 2³⁶ = 1`. -/
+example : ulp17 * 68719476736 = (1 : Float) := by decide +kernel
+/-- sharpness at the top binade below the clamp: `2⁻³⁷` (half an ulp of `65536`) is absorbed by the tie-to-even rule, so
+the threshold `2⁻³⁶` cannot be lowered to `2⁻³⁷`. -/
+example : Scalar.lt (65536 : Float) ((65536 : Float) + Float.ofBits 0x3DA0000000000000) = false ∧
+    Float.ofBits 0x3DA0000000000000 * 2 = ulp17 := by decide +kernel
+
+end Terminate
 
 end Rosu.C20
